@@ -192,12 +192,14 @@ impl ServerParameters {
     /// returns true if a tracked parameter was set, false if it was a non-tracked parameter
     /// if startup is false, then then only tracked parameters will be set
     pub fn set_param(&mut self, mut key: String, value: String, startup: bool) {
-        // The startup parameter will send uncapitalized keys but parameter status packets will send capitalized keys
-        if key == "timezone" {
-            key = "TimeZone".to_string();
-        } else if key == "datestyle" {
-            key = "DateStyle".to_string();
-        };
+        // Parameter names are case-insensitive: the startup packet can spell them any way
+        // (timezone, TIMEZONE, Application_Name), parameter status packets use the canonical spelling.
+        if let Some(tracked) = TRACKED_PARAMETERS
+            .iter()
+            .find(|tracked| tracked.eq_ignore_ascii_case(&key))
+        {
+            key = tracked.clone();
+        }
 
         if TRACKED_PARAMETERS.contains(&key) || startup {
             self.parameters.insert(key, value);
